@@ -2314,7 +2314,8 @@ func (c *Conn) handleCloseError(closeErr *closeError) {
 		c.connIDGenerator.ReplaceWithClosed(nil, 3*c.rttStats.PTO(false))
 		return
 	}
-	if closeErr.immediate {
+	// After a stateless reset, no further packets must be sent on this connection (RFC 9000, section 10.3.1).
+	if closeErr.immediate || statelessResetErr != nil {
 		c.connIDGenerator.RemoveAll()
 		return
 	}
